@@ -74,6 +74,11 @@ def generate(seed, tier):
         cfg["Jdes"] = min(cfg["Jdes"], 10)
         if cfg["scheduler"] == "custom":
             cfg["custom_plan"] = SC.gen_custom_plan(rw, N, cfg["fs"], max_bins=6, Lcap=48)
+    bigplan = (not sim) and rw.random() < 0.07
+    if bigplan:
+        N = rw.choice([1500, 3000])
+        data = SC.gen_data_spec(rw, N, channels)
+        SC.make_big_plan(rw, cfg)
     # interfering second analyzer: same data, different window / order / psll
     other = dict(cfg)
     other["win"] = rw.choice([w for w in ["hann", "kaiser", "ones", "signed"] if w != cfg["win"]])
@@ -81,7 +86,7 @@ def generate(seed, tier):
     other["psll"] = rw.choice([60, 90, 170])
     other["band"] = None
     other["force_target_nf"] = False
-    nops = rw.randrange(5, 16) if sim else rw.randrange(5, 41)
+    nops = rw.randrange(5, 16) if sim else (rw.randrange(4, 10) if bigplan else rw.randrange(5, 41))
     ops = []
     ncomp = 0
     nres = 0
@@ -97,7 +102,8 @@ def generate(seed, tier):
         elif r < 0.42:
             fsel = ["grid", rw.randrange(0, 64)] if rw.random() < 0.5 else ["free", round(rw.uniform(0.0, 0.5), 5)]
             lsel = rw.choice([["planL", rw.randrange(0, 64)], ["L", rw.randrange(1, min(N, 48 if sim else N) + 1)],
-                              ["fres", rw.randrange(1, min(N, 48 if sim else N) + 1)]])
+                              ["fres", rw.randrange(1, min(N, 48 if sim else N) + 1)],
+                              ["fres", round(rw.uniform(1.0, min(N, 48 if sim else N)), 3)]])   # fs/fres not an integer
             ops.append(["single", fsel, lsel]); nres += 1
         elif r < 0.55:
             ops.append(["resched", W.gen_world(rf, world, rw.choice([2, 5, 12]))])
@@ -184,18 +190,26 @@ def execute(sc, out):
         out.observe([base_raw[k] for k in SS.RAW_CMP])
 
         def cross_knob_check(raw, key):
-            """Same analysis under another thread configuration / chunking: raw statistics within the rounding budget
-            (beyond it: violation), plan and window sums exactly."""
+            """Same analysis under another thread configuration / chunking.  Two valid evaluation orders of the same
+            arithmetic may differ by the rounding budget of the recurrence (R1, computed per bin from the detrended
+            magnitudes) - beyond twice that budget it is a violation; plan and window sums must agree exactly."""
             ulp = False
+            xs = (data[0], data[1]) if data.ndim == 2 else (data, None)
             for j in range(nf):
-                t2, t4 = _numpy_budget(int(raw["L"][j]), xmax)
-                for nm, tol in (("XX", t2), ("YY", t2), ("XY", t2), ("M2", t4)):
-                    a, b = raw[nm][j], base_raw[nm][j]
+                a4 = [raw[nm][j] for nm in ("XX", "YY", "XY", "M2")]
+                b4 = [base_raw[nm][j] for nm in ("XX", "YY", "XY", "M2")]
+                if all((a == b) or (a != a and b != b) for a, b in zip(a4, b4)):
+                    continue
+                Lj = int(raw["L"][j])
+                wj = SC.reference_window(cfg["win"], cfg["psll"], Lj)
+                RM.ref_stats(xs[0], xs[1], np.asarray(raw["D"][j]), Lj, wj, 2 * np.pi * float(raw["f"][j]) / cfg["fs"], cfg["order"])
+                tXX, tYY, tmu, _, tM2 = RM.ref_stats.last_tols
+                for nm, a, b, tol in zip(("XX", "YY", "XY", "M2"), a4, b4, (tXX, tYY, tmu, tM2)):
                     if a == b or (a != a and b != b):
                         continue
-                    if not abs(a - b) <= tol:
+                    if not abs(a - b) <= 2.0 * tol:
                         out.violate("depends_on_thread_config" if world == "real-numba" else "depends_on_chunking",
-                                    f"world={world} field={nm}", f"bin {j}: {key} gives {a!r}, {key0} gives {b!r} (budget {tol:.2e})")
+                                    f"world={world} field={nm}", f"bin {j} (L={Lj}, K={len(raw['D'][j])}): {key} gives {a!r}, {key0} gives {b!r} (rounding budget {tol:.2e})")
                     else:
                         ulp = True
             for nm in ("f", "L", "K", "navg", "D", "S2", "S12"):
